@@ -98,7 +98,8 @@ def classify(e):
              ("Index of coupons must match", "ECouponIdx"), ("Index of bidoffer must match", "EBidofferIdx"),
              ("Cannot transact at custom prices", "ECustomNoBidoffer"),
              ("Cannot have fixed income strategy child", "EFiChild"), ("already exists", "EDupChild"),
-             ("duplicate column names", "EDupColumn"), ("Potentially infinite loop", "ESizingLoop"),
+             ("duplicate column names", "EDupColumn"), ("Expecting weights (that sum to 1)", "EValue"),
+             ("invalid limit -> 1 / limit", "EValue"), ("Potentially infinite loop", "ESizingLoop"),
              ("root search for quantity is stuck", "ESizingStuck"), ("has gotten bigger", "ESizingDiverged")]
     for pat, name in table:
         if pat in m:
